@@ -162,6 +162,18 @@ static void run_randi(Json& js, vh::Rng& rng, long budget) {
             mn = std::min<long>(mn, u[i]), mx = std::max<long>(mx, u[i]);
         }
         js.begin("Randi").raw("lo", 1).raw("hi", imax).num("n", n).raw("min", mn).raw("max", mx).boolean("all_int", u.size() == n).end();
+        // scalar randi with explicit ranges, back to back with the same upper and different lower bounds (and vice versa)
+        {
+            static const int RG[][2] = {{-6, 6}, {1, 6}, {6, 6}, {-100, -1}, {-3, -1}, {-3, 5}, {2, 5}, {2, 2}, {-7, -7}, {-7, 0}};
+            for (const auto& rg : RG) {
+                long smn = 1L << 30, smx = -(1L << 30);
+                for (int i = 0; i < 40; ++i) {
+                    const long q = randi({rg[0], rg[1]});
+                    smn = std::min(smn, q), smx = std::max(smx, q);
+                }
+                js.begin("Randi").raw("lo", rg[0]).raw("hi", rg[1]).num("n", 40).raw("min", smn).raw("max", smx).boolean("all_int", true).end();
+            }
+        }
         // the scalar overload draws from the same documented range [1, imax]
         {
             const int im = (int)rng.range(1, 5);
@@ -184,7 +196,10 @@ static void run_randi(Json& js, vh::Rng& rng, long budget) {
 // awgn: noise power = signal power / 10^(snr/10) within 6 standard errors
 static void run_awgn(Json& js, vh::Rng& rng, long budget, int maxlen) {
     for (long t = 0; t < budget; ++t) {
-        const int n = (int)std::pow(10.0, 4 + rng.unif() * std::log10(maxlen / 1e4));
+        int n = (int)std::pow(10.0, 4 + rng.unif() * std::log10(maxlen / 1e4));
+        if (t % 5 == 4) {
+            n = (int)rng.range(90000, 160000);
+        }
         double snr = -10 + 90 * rng.unif();
         double amp = std::pow(10.0, -3 + 6 * rng.unif());   // powers over 120 dB
         if (t % 4 == 3) {   // the quiet corner: a weak signal and a high SNR (noise far below any absolute floor one might invent)
@@ -193,6 +208,8 @@ static void run_awgn(Json& js, vh::Rng& rng, long budget, int maxlen) {
         }
         const bool cplx = rng.coin();
         const int kind = (int)rng.range(0, 2);   // tone / broadband / unbalanced I-Q
+        // every fifth record is long (> 65536 samples) and changes level along the way: "the power of x" is that of the whole record
+        const bool fade = (t % 5 == 4);
         dsplib::rng((int)rng.range(0, 100000));
         // half of the real signals ride on a pedestal: "signal power" is the mean square, not the variance
         const double ped = (t % 2) ? amp * (0.5 + 2 * rng.unif()) * (rng.coin() ? 1 : -1) : 0.0;
@@ -200,7 +217,7 @@ static void run_awgn(Json& js, vh::Rng& rng, long budget, int maxlen) {
         if (!cplx) {
             arr_real x(n);
             for (int i = 0; i < n; ++i) {
-                x[i] = amp * (kind == 1 ? rng.gauss() : std::sin(0.37 * i + 0.2)) + ped;
+                x[i] = (fade ? (0.02 + 2.0 * i / n) : 1.0) * amp * (kind == 1 ? rng.gauss() : std::sin(0.37 * i + 0.2)) + ped;
             }
             const arr_real y = awgn(x, snr);
             for (int i = 0; i < n; ++i) {
@@ -213,6 +230,9 @@ static void run_awgn(Json& js, vh::Rng& rng, long budget, int maxlen) {
                 x[i] = kind == 0 ? cmplx_t(amp * std::cos(0.37 * i), amp * std::sin(0.37 * i))
                      : kind == 1 ? cmplx_t(amp * rng.gauss(), amp * rng.gauss())
                                  : cmplx_t(amp * std::cos(0.37 * i), 0.25 * amp * std::sin(0.11 * i));   // unequal I / Q power
+                if (fade) {
+                    x[i] = x[i] * (0.02 + 2.0 * i / n);
+                }
             }
             const arr_cmplx y = awgn(x, snr);
             for (int i = 0; i < n; ++i) {
@@ -270,6 +290,13 @@ static void run_meas(Json& js, vh::Rng& rng, long budget, int maxlen) {
                 v += powl(10.0L, (LD)hdb[h] / 20) * sinl(2 * PI_L * f0 * (h + 2) * i + hph[h]);
             }
             x[i] = (double)(A * v);
+        }
+        // windows of the same length with other parameters were requested on this thread just before (analysis code
+        // typically builds several): the measurement functions must not pick up anything from them
+        {
+            const arr_real d1 = window::kaiser(n, 2.5), d2 = window::hann(n), d3 = window::kaiser(n, 9.0);
+            volatile double keep = d1[0] + d2[0] + d3[0];
+            (void)keep;
         }
         const auto r = thd(x, nh + 1);
         const double want_thd = (double)(10 * log10l(hpow));
